@@ -47,3 +47,19 @@ impl<'a> Lx<'a> {
         None
     }
 }
+
+/// C09.P12 positive: the meaning of the current character is decided by looking at the raw text BEFORE the cursor
+pub fn brace_is_escape(input: &str) -> Option<usize> {
+    let mut chars = input.char_indices();
+    while let Some((i, c)) = chars.next() {
+        if c == '{' && input[..i].ends_with("\\u") {
+            return Some(i);
+        }
+    }
+    None
+}
+
+/// C09.P12 negative: suffix test on the whole token (not on the text before a scanning position)
+pub fn has_suffix(token: &str) -> bool {
+    token.ends_with("f32")
+}
